@@ -50,6 +50,24 @@ theorem cseg_promotes_small_types (i : InfoM) (ty : Option String) (s0 : ScaleM)
       (if i.dataType = "uint8" ∨ i.dataType = "uint16" then "uint32" else i.dataType) := by
   simp [setParams, hs, setScale0]
 
+/-- Both programs select the same downscaler for every method option (including "auto", which is
+    resolved from the info's type AFTER `--type` / `--encoding` were applied), given the JSON round trip. -/
+theorem same_downscaling_method (reparse : InfoM → InfoM) (hjson : ∀ i, reparse i = i) (n : Nat)
+    (method : String) (fullres : InfoM) (ty enc : Option String) :
+    allInOneMethod method fullres ty enc = stepwiseMethod reparse n method fullres ty enc := by
+  unfold allInOneMethod stepwiseMethod stepwiseInfo
+  rw [hjson, hjson]
+  cases hsc : fullres.scales with
+  | nil => simp [setParams, fillScales, hsc]
+  | cons s0 rest => simp [setParams, fillScales, hsc]
+
+/-- … and resolving "auto" BEFORE the parameters are applied gives another method for a segmentation
+    requested on the command line (regression witness for the order of the two calls) -/
+theorem method_resolution_order_matters :
+    let i : InfoM := ⟨some "image", "uint32", 1, [⟨0, none, none⟩]⟩
+    resolveMethod "auto" i.type ≠ allInOneMethod "auto" i (some "segmentation") none := by
+  decide
+
 /-- Exit status 0 means that EVERY step of the command succeeded (writing the info, every chunk
     write, the final flush of buffered shards), for every list of steps. -/
 theorem status_zero_iff_all_steps_ok {ε} (steps : List (Except ε Unit)) :
